@@ -50,7 +50,13 @@ GStep ==
         \/ (Enroll /\ hist' = Append(hist, [op |-> "Enroll"]))
      ELSE IF GMode = "faulty" THEN
         \/ \E b \in {RandomElement({FALSE, FALSE, TRUE})}, f \in {RandomElement({"none", "none", "remove", "load", "store"})}, lx \in {RandomElement(Lifetimes)} :
-              (FaultyRot(b, f, lx) /\ hist' = Append(hist, [op |-> "Rotate", reinit |-> b, fault |-> f, Lx |-> lx]))
+              (FaultyRot(b, f, lx) /\ hist' = Append(hist, [op |-> "Rotate", reinit |-> b, fault |-> f, Lx |-> lx, skip |-> FALSE]))
+        \* a call with the skip-storage option (no fault): nothing is written, except that a reinitialisation removes first
+        \/ \E b \in {RandomElement({FALSE, TRUE})} :
+              LET r == RotateSkip(s, now, P, b, nid) IN
+                /\ s' = r.s /\ nid' = nid + r.minted /\ lastRot' = now /\ last' = NoLast
+                /\ UNCHANGED <<now, enrolled, chains, lastEnr>>
+                /\ hist' = Append(hist, [op |-> "Rotate", reinit |-> b, fault |-> "none", Lx |-> L, skip |-> TRUE])
         \/ \E d \in {RandomElement(1..(2 * L))} : (FreeTick(d) /\ hist' = Append(hist, [op |-> "Tick", d |-> d]))
         \/ \E d \in {RandomElement(1..2)} : (FreeTick(d) /\ hist' = Append(hist, [op |-> "Tick", d |-> d]))
      ELSE
